@@ -162,7 +162,9 @@ func runDimCases(seed uint64, n int, outDir string, extra map[string]interface{}
 		case 4:
 			s += digits(rnd(2)) + "." + digits(1+rnd(3)) + pick("e", "E") + pick("", "-") + digits(1)
 		default:
-			s += pick("0", "00", "0.0", ".0", "0e5", "0.0e3", "00012", "1000", "10", "0.50", "1.0", "100.0")
+			s += pick("0", "00", "0.0", ".0", "0e5", "0.0e3", "00012", "1000", "10", "0.50", "1.0", "100.0",
+				// exponents at and beyond the int64 range: minify.Number gives such numbers back unchanged (K129)
+				"0.5e9223372036854775808", "05e9223372036854775807", "0.5e-9223372036854775809", "1e99999999999999999999", "0e9223372036854775808", "00.50e-9223372036854775800")
 		}
 		return s
 	}
